@@ -409,7 +409,9 @@ class RegionGeom:
         Bshr = 0.826
 
         # Multiply by tau exit probability and branching ratio (currently ignores muon channel for tau decays; it's also hard coded in, so will need to be changed)
-        mcintfactor *= Bshr * tauexitprob
+        # (in double whatever the caller passes: 0.826 x a half-precision array is rounded
+        # to half precision, 2e-4 above 0.826)
+        mcintfactor *= Bshr * np.asarray(tauexitprob, dtype=np.float64)
 
         # Weighting by energy spectrum if other than monoenergetic spectrum
         mcintfactor /= spec_norm
@@ -558,7 +560,7 @@ class RegionGeomToO:
         spec_weights_sum,
         **kwargs,
     ):
-        lenDec = kwargs["lenDec"]
+        lenDec = np.asarray(kwargs["lenDec"], dtype=np.float64)
         method = kwargs["method"]
         if "store" in kwargs.keys():
             store = kwargs["store"]
@@ -569,7 +571,7 @@ class RegionGeomToO:
             raise ValueError("method must be Optical or Radio")
 
         # calculate the Cherenkov angle
-        thetaChEff = np.arccos(costhetaChEff)
+        thetaChEff = np.arccos(np.asarray(costhetaChEff, dtype=np.float64))
         tanthetaChEff = np.tan(thetaChEff)
 
         mcintfactor_umsk = self.pathLens() - lenDec
@@ -590,7 +592,9 @@ class RegionGeomToO:
 
         # Multiply by tau exit probability and branching ratio (currently ignores muon channel for tau decays; it's also hard coded in, so will need to be changed)
 
-        mcintfactor *= Bshr * tauexitprob
+        # (in double whatever the caller passes: 0.826 x a half-precision array is rounded
+        # to half precision, 2e-4 above 0.826)
+        mcintfactor *= Bshr * np.asarray(tauexitprob, dtype=np.float64)
 
         # Weighting by energy spectrum if other than monoenergetic spectrum
         mcintfactor /= spec_norm
